@@ -1,6 +1,8 @@
 (* C11 — Seeded runs are reproducible and independent of parallel scheduling.
    Only statements closed by [exact]; proofs live in C11/. *)
 From Coq Require Import ZArith List Bool.
+From Coq Require Import Ring.
+From PV Require C04.PermModel C04.FinalProofs C11.NativeIndep.
 From PV Require Import C11.GrayModel C11.GrayProofs C11.JobProofs C11.PermModel
   C11.RngModel C11.RngProofs.
 Import ListNotations.
@@ -48,10 +50,12 @@ Theorem C11_next_spec : forall lims o om, lims_ok lims -> 0 <= o -> o + 1 < prod
 Proof. exact next_spec. Qed.
 Print Assumptions C11_next_spec.
 
-(* initialize(o) = next^o(initialize(0)) *)
-Theorem C11_gray_init_eq_iter : forall lims o, lims_ok lims -> 0 <= o < prodZ lims -> o <= INT_MAX ->
-  match construct lims 0 with Some c0 => next_n (Z.to_nat o) c0 | None => None end
-  = construct lims o.
+(* initialize(o) = next^o(initialize(0)); [bits] is the width of the integer the offset is
+   narrowed to in ::initialize: 32 in the code as it was (static_cast<int>), 64 after the repair *)
+Theorem C11_gray_init_eq_iter : forall bits lims o, lims_ok lims -> 0 <= o < prodZ lims ->
+  o <= int_max bits ->
+  match construct bits lims 0 with Some c0 => next_n (Z.to_nat o) c0 | None => None end
+  = construct bits lims o.
 Proof. exact gray_init_eq_iter. Qed.
 Print Assumptions C11_gray_init_eq_iter.
 
@@ -72,7 +76,7 @@ Print Assumptions C11_jobs_cover_once.
 (* the sum of the per-job accumulators is the same for every job count, in any monoid, for
    any per-job state that is a function of the current Gray code *)
 Theorem C11_jobs_independent :
-  forall (A : Type) (zero : A) (add : A -> A -> A),
+  forall (bits : Z) (A : Type) (zero : A) (add : A -> A -> A),
   (forall a b c, add a (add b c) = add (add a b) c) ->
   (forall a, add zero a = a) -> (forall a, add a zero = a) ->
   forall (St : Type) (s_init : list Z -> St) (s_step : St -> nat -> Z -> Z -> St)
@@ -82,11 +86,50 @@ Theorem C11_jobs_independent :
   (forall g i v, in_box lims g -> (i < length lims)%nat ->
      (v = nth i g 0 + 1 \/ v = nth i g 0 - 1) -> in_box lims (upd g i v) ->
      s_step (direct g) i (nth i g 0) v = direct (upd g i v)) ->
-  forall K K', 1 <= K <= prodZ lims -> 1 <= K' <= prodZ lims -> prodZ lims - 1 <= INT_MAX ->
-  jobs_total A zero add St s_init s_step s_addend lims K =
-  jobs_total A zero add St s_init s_step s_addend lims K'.
+  forall K K', 1 <= K <= prodZ lims -> 1 <= K' <= prodZ lims -> prodZ lims - 1 <= int_max bits ->
+  jobs_total bits A zero add St s_init s_step s_addend lims K =
+  jobs_total bits A zero add St s_init s_step s_addend lims K'.
 Proof. exact jobs_independent. Qed.
 Print Assumptions C11_jobs_independent.
+
+(* With the incremental state of the kernel proved equal to its direct definition (C04/, for
+   C04's transcription of the same C++ over any commutative ring) the hypothesis on the state
+   disappears: permanent_cpp and permanent_laplace_cpp return the same outcome for every
+   thread count >= 1, and that outcome is 2^e * (the defining sum of the permanent). *)
+Section Native.
+Variable A : Type.
+Variables (rO rI : A) (radd rmul rsub : A -> A -> A) (ropp : A -> A).
+Hypothesis Rth : ring_theory rO rI radd rmul rsub ropp (@eq A).
+Variable wb : Z.
+
+Theorem C11_permanent_cpp_thread_independent : forall w t t' M rows cols,
+  length M = length rows -> (1 <= t)%nat -> (1 <= t')%nat ->
+  C04.FinalProofs.weight_n wb w (C04.PermModel.sum_nat rows) ->
+  C04.PermModel.permanent_cpp A rO rI radd rmul ropp wb w t M rows cols =
+  C04.PermModel.permanent_cpp A rO rI radd rmul ropp wb w t' M rows cols.
+Proof. exact (C11.NativeIndep.permanent_cpp_thread_independent A rO rI radd rmul rsub ropp Rth wb). Qed.
+
+Theorem C11_permanent_laplace_cpp_thread_independent : forall w t t' M rows cols,
+  length M = length rows -> (1 <= t)%nat -> (1 <= t')%nat ->
+  C04.FinalProofs.weight_n wb w (C04.PermModel.sum_nat rows) ->
+  C04.PermModel.permanent_laplace_cpp A rO rI radd rmul ropp wb w t M rows cols =
+  C04.PermModel.permanent_laplace_cpp A rO rI radd rmul ropp wb w t' M rows cols.
+Proof. exact (C11.NativeIndep.permanent_laplace_cpp_thread_independent A rO rI radd rmul rsub ropp Rth wb). Qed.
+
+Theorem C11_permanent_cpp_value_every_thread_count : forall w t M rows cols num e,
+  length M = length rows -> Forall (fun row => length row = length cols) M ->
+  (1 <= t)%nat -> C04.FinalProofs.weight_n wb w (C04.PermModel.sum_nat rows) ->
+  C04.PermModel.permanent_cpp A rO rI radd rmul ropp wb w t M rows cols = C04.PermModel.Ok (num, e) ->
+  forall t', (1 <= t')%nat ->
+    C04.PermModel.permanent_cpp A rO rI radd rmul ropp wb w t' M rows cols
+    = C04.PermModel.Ok
+        (rmul (C04.PermModel.rpow A rI rmul (radd rI rI) e)
+              (C04.PermModel.perm_def A rO rI radd rmul M rows cols), e).
+Proof. exact (C11.NativeIndep.permanent_cpp_value_every_thread_count A rO rI radd rmul rsub ropp Rth wb). Qed.
+End Native.
+Print Assumptions C11_permanent_cpp_thread_independent.
+Print Assumptions C11_permanent_laplace_cpp_thread_independent.
+Print Assumptions C11_permanent_cpp_value_every_thread_count.
 
 (* the job count the (repaired) code chooses is admissible for every answer of the
    hardware-concurrency query; for the code as it was the answer 0 is not *)
@@ -182,17 +225,18 @@ Example C11_perm_example :
   = [Some (20, 0); Some (20, 0); Some (20, 0); Some (20, 0)].
 Proof. vm_compute. reflexivity. Qed.
 
-(* the static_cast<int> of the initial offset: in range below 2^31 (hypothesis o <= INT_MAX of
-   C11_gray_init_eq_iter / C11_jobs_independent), no counter beyond it *)
+(* the static_cast<int> of the initial offset: with 32 bits no counter beyond 2^31 - 1
+   (hypothesis o <= int_max bits of C11_gray_init_eq_iter / C11_jobs_independent); with the
+   64-bit offset of the repaired code the same offset is fine *)
 Example C11_offset_cast_refuted :
   let lims := repeat 2 33 in
-  0 <= 2147483653 < prodZ lims /\ construct lims 2147483653 = None /\
-  construct lims 2147483647 <> None.
+  0 <= 2147483653 < prodZ lims /\ construct 32 lims 2147483653 = None /\
+  construct 32 lims 2147483647 <> None /\ construct 64 lims 2147483653 <> None.
 Proof. vm_compute. repeat split; congruence. Qed.
 
 (* without clipping the job count to idx_max the empty jobs would still add their initial
    addend: counting addends with K = 3 jobs on a range of 2 offsets gives 4 *)
 Example C11_clip_needed :
-  jobs_total Z 0 Z.add unit (fun _ => tt) (fun s _ _ _ => s) (fun _ => 1) [2] 3 = Some 4 /\
-  jobs_total Z 0 Z.add unit (fun _ => tt) (fun s _ _ _ => s) (fun _ => 1) [2] 2 = Some 2.
+  jobs_total 64 Z 0 Z.add unit (fun _ => tt) (fun s _ _ _ => s) (fun _ => 1) [2] 3 = Some 4 /\
+  jobs_total 64 Z 0 Z.add unit (fun _ => tt) (fun s _ _ _ => s) (fun _ => 1) [2] 2 = Some 2.
 Proof. vm_compute. split; reflexivity. Qed.
